@@ -2348,6 +2348,12 @@ def pair8_reversal(P, R, L, rule="PAIR-8"):
         R.check(rule, "%s|step-before-choose" % b.path, ok and bool(resk) and bool(st), where(b),
                 "%s steps the current child before choosing, re-seeks the other children in a loop on reversal and records the new direction" % meth,
                 "step sites %d, chooser sites %d, child re-seek sites %d, direction stores %d" % (len(ss), len(cs_), len(resk), len(st)))
+        # the other children are re-seeked relative to the key the current child is ON: the re-seek loop comes before the
+        # step, never after it (stepping first positions them behind the current child's NEXT key and loses what lies between)
+        late = [r.line for r in resk if any(s.target is not None and r.bb in b.reachable(s.target) for s in ss)]
+        R.check(rule, "%s|reseek-before-step" % b.path, bool(ss) and bool(resk) and not late, where(b),
+                "on a reversal the other children are re-seeked to the current key before the current child is stepped",
+                "re-seek at line(s) %s reachable after the step" % late if late else "re-seek sites %d, step sites %d" % (len(resk), len(ss)))
 
 
 # ------------------------------------------------------------------------------------------- PAIR-9 boundary expansion before range computation
@@ -4255,6 +4261,7 @@ def bundle_readpath(P, R, L):
     bundle_filter(P, R, L)
     R.once(own10_cache_partitions, P, R, L)
     R.once(own11_table_cache_key, P, R, L)
+    R.once(ord21_file_loader_commits_after_open, P, R, L)
     agr2_codec_pairs(P, R, L, groups=("table",))
     R.once(grd27_separator_strictly_below_next_key, P, R, L)
 
@@ -5355,3 +5362,28 @@ def pair17_recovery_flush_forces_manifest(P, R, L, rule="PAIR-17"):
     R.check(rule, fn + "|a-flush-during-replay-is-reported", bool(conv) and bool(flags) and bool(sets_true) and not bad, where(b),
             "every path through convert_memtable_to_file to an Ok return passes `flag = true` for the flag returned as the first tuple component",
             "; ".join(bad) or "flush sites %d, flag stores %d" % (len(conv), len(sets_true)))
+
+
+def ord21_file_loader_commits_after_open(P, R, L, rule="ORD-21"):
+    """FilesEntryIterator::set_table_iter has a shortcut: "the requested file is the current one and an iterator exists —
+    nothing to do". The pair (current_file_index, current_table_iter) must therefore change together, after the fallible
+    TableCache::find_table: an index recorded before a failed open makes the retry take the shortcut with the PREVIOUS
+    file's iterator, and the scan silently skips one whole table file."""
+    fn = "versioning::file_iterators::FilesEntryIterator::set_table_iter"
+    b = P.body(fn)
+    if b is None:
+        return R.missing_anchor(rule, fn)
+    R.analysed(b)
+    opens = [c for c in b.calls() if not b.is_cleanup(c.bb) and c.name == "table_cache::TableCache::find_table"]
+    bad = []
+    n = 0
+    for f in ("current_file_index", "current_table_iter"):
+        for s in field_stores(b, f):
+            n += 1
+            after = b.reachable(s[0])
+            late = [o for o in opens if o.bb in after and o.bb != s[0]]
+            if late:
+                bad.append("%s is assigned at line %s before the table is opened at line %s" % (f, s[2].get("line"), late[0].line))
+    R.check(rule, fn + "|state-committed-after-the-fallible-open", bool(opens) and n >= 2 and not bad, where(b),
+            "no store to current_file_index / current_table_iter can be followed by the fallible find_table (a failed open leaves the pair untouched)",
+            "; ".join(bad) or "%d stores, %d open sites" % (n, len(opens)))
